@@ -469,6 +469,7 @@ fn bft_result(mode: &str, cfg: &bft::Cfg, out: &bft::RunOutcome) -> CaseResult {
             "max_view": s.max_view, "delivered": s.delivered, "tasks_spawned": s.spawned,
         }),
         replay: None,
+        draws: Default::default(),
     }
 }
 
@@ -539,6 +540,9 @@ pub fn write_replay(engine: &str, mode: &str, seed: u64, prop: &str, r: &CaseRes
 }
 
 pub fn replay_case(engine: &str, doc: &Value) -> (CaseResult, Vec<String>) {
+    if let Ok(cuts) = serde_json::from_value::<crate::kit::tape::Cuts>(doc["case"]["cuts"].clone()) {
+        crate::kit::tape::set_cuts(cuts);
+    }
     match engine {
         "prim" => crate::prim::run_case(doc["mode"].as_str().unwrap_or(""), doc["seed"].as_u64().unwrap_or(0), true),
         "pipe" => crate::pipes::run_case(doc["mode"].as_str().unwrap_or(""), doc["seed"].as_u64().unwrap_or(0), true),
@@ -649,6 +653,108 @@ pub fn minimise_replay(engine: &str, path: &str, prop: &str, class: &str) -> Opt
                 None
             }
         }
+        "prim" | "pipe" | "node" => minimise_cuts(engine, path, prop, class, &doc),
         _ => None,
+    }
+}
+
+/// Minimisation for the engines whose scenario is a pure function of (mode, seed): stream by
+/// stream (scheduler picks, director actions, transport decisions, workload ...), find the
+/// smallest number of seeded draws after which every further draw can be the simplest one
+/// (`kit::tape`) while the same violation class still fires.  Writes `<path>.min.json`
+/// (seed + cuts + the event log of the minimised run) and confirms it in a fresh process.
+fn minimise_cuts(engine: &str, path: &str, prop: &str, class: &str, doc: &Value) -> Option<String> {
+    use crate::kit::tape::{self, Cuts, Fill};
+    let mode = doc["mode"].as_str()?.to_string();
+    let seed = doc["seed"].as_u64()?;
+    let t0 = std::time::Instant::now();
+    let budget = std::time::Duration::from_secs(std::env::var("VERIF_MIN_BUDGET_S").ok().and_then(|s| s.parse().ok()).unwrap_or(90));
+    let mut attempts = 0u64;
+    let mut run = |cuts: &Cuts| -> Option<(CaseResult, crate::kit::Violation)> {
+        attempts += 1;
+        tape::set_cuts(cuts.clone());
+        let r = run_case(engine, &mode, seed, false, prop);
+        tape::set_cuts(Cuts::new());
+        let v = r.violations.iter().find(|v| v.property == prop && v.class == class).cloned()?;
+        Some((r, v))
+    };
+    let (base, _) = run(&Cuts::new())?;
+    let total_before: u64 = base.draws.values().sum();
+    let mut cuts = Cuts::new();
+    let mut draws = base.draws.clone();
+    // Largest streams first: they carry most of the entropy.
+    let mut labels: Vec<(String, u64)> = base.draws.iter().map(|(k, v)| (k.clone(), *v)).collect();
+    labels.sort_by(|a, b| b.1.cmp(&a.1).then(a.0.cmp(&b.0)));
+    for (label, _) in labels {
+        if t0.elapsed() > budget {
+            break;
+        }
+        let n = draws.get(&label).copied().unwrap_or(0);
+        if n == 0 {
+            continue;
+        }
+        let mut best: Option<(u64, Fill, CaseResult)> = None;
+        for fill in [Fill::High, Fill::Low] {
+            // Cheapest first: the whole stream replaced.
+            let mut c = cuts.clone();
+            c.insert(label.clone(), (0, fill));
+            if let Some((r, _)) = run(&c) {
+                best = Some((0, fill, r));
+                break;
+            }
+            // Binary search for the shortest seeded prefix (the predicate need not be monotone:
+            // the result is a local minimum which is confirmed below).
+            let (mut lo, mut hi) = (1u64, n);
+            let mut found: Option<(u64, CaseResult)> = None;
+            while lo < hi && t0.elapsed() < budget {
+                let mid = (lo + hi) / 2;
+                c.insert(label.clone(), (mid, fill));
+                match run(&c) {
+                    Some((r, _)) => {
+                        found = Some((mid, r));
+                        hi = mid;
+                    }
+                    None => lo = mid + 1,
+                }
+            }
+            if let Some((k, r)) = found {
+                if best.as_ref().map(|b| k < b.0).unwrap_or(true) {
+                    best = Some((k, fill, r));
+                }
+            }
+        }
+        if let Some((k, fill, r)) = best {
+            cuts.insert(label.clone(), (k, fill));
+            draws = r.draws.clone();
+        }
+    }
+    if cuts.is_empty() {
+        return None;
+    }
+    let (_, v) = run(&cuts)?;
+    let seeded_after: u64 = draws.iter().map(|(l, n)| cuts.get(l).map(|c| c.0.min(*n)).unwrap_or(*n)).sum();
+    tape::set_cuts(cuts.clone());
+    let (_, log) = run_case_logged(engine, &mode, seed);
+    tape::set_cuts(Cuts::new());
+    let min = json!({
+        "property": prop, "engine": engine, "mode": mode, "seed": seed,
+        "case": {"cuts": cuts, "trace": log},
+        "expected": {"class": v.class, "event": v.event, "detail": v.detail},
+        "minimised_from": {"seeded_draws": total_before, "streams": base.draws.len()},
+        "seeded_draws": seeded_after, "streams_cut": cuts.len(), "attempts": attempts,
+    });
+    let out = format!("{}.min.json", path.trim_end_matches(".json"));
+    std::fs::write(&out, serde_json::to_string_pretty(&min).ok()?).ok()?;
+    let exe = std::env::current_exe().ok()?;
+    let st = std::process::Command::new(exe)
+        .args([prop, "--replay", &out])
+        .stdout(std::process::Stdio::null())
+        .stderr(std::process::Stdio::null())
+        .status()
+        .ok()?;
+    if st.code() == Some(1) {
+        Some(out)
+    } else {
+        None
     }
 }
